@@ -458,8 +458,8 @@ class _Inliner:
             return None
         if isinstance(c.func, ast.Name) and (c.func.id in self._locals):
             return None
-        if h.module is not self.f.module and not (h.cls is None and self._same_globals(h)):
-            return None
+        if h.module is not self.f.module and not self._same_globals(h):
+            return None     # (a method of a base class defined in another module is as good as a module-level helper, under the same condition)
         if (not h.name.startswith('_') and '<any-name>' not in self.keep) or (h.name.startswith('__') and h.name.endswith('__')):
             return None
         if h.parent is not None or not isinstance(h.node, (ast.FunctionDef, ast.AsyncFunctionDef)):
